@@ -135,15 +135,12 @@ class _Capture(logging.Handler):
         self.records.append((record.name, record.levelname, record.getMessage()[:80]))
 
 
-_TMP = {}
-
-
-def _tmpdir():
-    pid = os.getpid()
-    if pid not in _TMP:
-        _TMP.clear()
-        _TMP[pid] = tempfile.mkdtemp(prefix="verif-c13-")
-    return _TMP[pid]
+def _tmpdir(params):
+    """A private directory below the one the check created (and removes) for this run"""
+    base = params.get("_tmp") or tempfile.gettempdir()
+    path = os.path.join(base, "p%d" % os.getpid())
+    os.makedirs(path, exist_ok=True)
+    return path
 
 
 class Scenario:
@@ -160,7 +157,7 @@ class Scenario:
 
         params = self.params
         plugins.SINK = env.log
-        path = config_file(params, _tmpdir())
+        path = config_file(params, _tmpdir(params))
         runtime = ServiceRunner()
         saved = (cobald.daemon.runtime, daemon_main.runtime, sys.argv)
         cobald.daemon.runtime = daemon_main.runtime = runtime
@@ -442,9 +439,19 @@ def shard(item):
 
 
 def run(ctx):
+    import shutil
+
+    base = tempfile.mkdtemp(prefix="verif-c13-")
+    try:
+        _run(ctx, base)
+    finally:
+        shutil.rmtree(base, ignore_errors=True)
+
+
+def _run(ctx, base):
     bound = 1 if ctx.quick else 2
     specs = [{
-        "module": "checks.c13", "params": params, "bound": bound,
+        "module": "checks.c13", "params": dict(params, _tmp=base), "bound": bound,
         "opts": {"time_horizon": 25.0, "drain": 2.0, "max_points": 8000, "free_switch_cost": 1,
                      "time_jump_cost": None if ctx.quick else 1},
         "budget": 2500 if ctx.quick else 25000,
@@ -458,7 +465,7 @@ def run(ctx):
              "section; Python modules with >>) x pipeline shape x service flavour x end (SIGINT "
              "at every explored point, failing service raise/return, each configuration error) "
              "x every schedule within the deviation bound, through the real cli_run(); plus %d "
-             "real daemon processes; non-trivial = more than one schedule executed"
+             "real daemon processes; non-trivial = a schedule with at least one deviation from the default one (all explored schedules are distinct)"
              % len(process_params(ctx.tier)),
         bounds={"deviation_bound": bound, "granularity": "synchronisation operations",
                 "real_processes": len(process_params(ctx.tier))},
@@ -469,7 +476,14 @@ def run(ctx):
 
 
 def replay(data):
+    import shutil
+
     if "process" in data:
         acc = process_case(data["process"])
         return "; ".join(v["what"] for v in acc.violations) or None
-    return H.replay(data)
+    base = tempfile.mkdtemp(prefix="verif-c13-")
+    try:
+        data["spec"]["params"]["_tmp"] = base
+        return H.replay(data)
+    finally:
+        shutil.rmtree(base, ignore_errors=True)
